@@ -124,14 +124,14 @@ func sign(n int64) int {
 }
 
 type productResult struct {
-	States       int
-	Returns      int
-	MaxWindow    int
-	Disagree     []map[string]interface{}
-	Undecided    []string
-	Panics       []map[string]interface{}
-	NonTerm      []map[string]interface{}
-	ImplStuck    []string
+	States    int
+	Returns   int
+	MaxWindow int
+	Disagree  []map[string]interface{}
+	Undecided []string
+	Panics    []map[string]interface{}
+	NonTerm   []map[string]interface{}
+	ImplStuck []string
 }
 
 func traceStrings(trace []string) (string, string) {
